@@ -67,5 +67,16 @@ func (s *Snapshot) IterationsStarted() uint64 {
 }
 
 func (s *Snapshot) FailedIterationsRate() uint64 {
+	if s.Iterations() == 0 {
+		return 0
+	}
+
 	return s.FailedIterationDurations.Count * 100 / s.Iterations()
+}
+
+// FailedIterationsRateExceeds reports whether the failed share of all iterations is
+// strictly greater than ratePercent. It compares without rounding the percentage down
+// and is defined for zero iterations.
+func (s *Snapshot) FailedIterationsRateExceeds(ratePercent uint64) bool {
+	return s.FailedIterationDurations.Count*100 > ratePercent*s.Iterations()
 }
